@@ -220,7 +220,7 @@ Definition init (c : N) : state :=
 Inductive obs := OCompleted | OCancelled.
 
 Inductive event :=
-(* API, from arbitrary goroutines; the service mutex admits one at a time *)
+(* API, from arbitrary goroutines; the service mutex lets one in at a time *)
 | EStartCall | EStartRet (ok : bool)
 | EStopCall (clear : bool) | EStopRet (ok : bool)
 | ECmdCall (b : body) | ECmdRet | EQueueTimeout
